@@ -7,7 +7,7 @@ import subprocess
 import sys
 
 VERIF = os.path.dirname(os.path.dirname(os.path.abspath(__file__)))
-REPLAYS = os.path.join(VERIF, 'replays')
+REPLAYS = os.environ.get('VERIF_REPLAY_DIR') or os.path.join(VERIF, 'replays')
 PY = '/venv/bin/python'
 
 
@@ -45,7 +45,6 @@ def run_replay(path, timeout=600):
     """Returns (violated: bool|None, message). None = replay itself failed (harness problem)."""
     env = dict(os.environ)
     env['PYTHONPATH'] = VERIF + os.pathsep + os.path.join(VERIF, '.deps')
-    env.pop('VERIF_REPO', None)
     p = subprocess.run([PY, os.path.join(VERIF, 'vsym', 'replay_child.py'), path], capture_output=True, text=True,
                        timeout=timeout, env=env, cwd=VERIF)
     out = (p.stdout or '').strip().splitlines()
